@@ -28,6 +28,10 @@ static std::string dump(const ST& t){
   std::ostringstream o;
   o<<"ndim="<<t.ndim<<" p="<<(const void*)t.order<<","<<(const void*)t.knots<<","<<(const void*)t.nknots<<","
    <<(const void*)t.extents<<","<<(const void*)t.naxes<<","<<(const void*)t.strides<<","<<(const void*)t.coefficients;
+  // the auxiliary keys belong to the state a rejected call must leave unchanged (an EMPTY table may carry keys too)
+  o<<" aux="<<t.naux<<"[";
+  for(size_t k=0;k<t.naux;k++) o<<t.aux[k][0]<<"="<<t.aux[k][1]<<";";
+  o<<"]";
   if(!t.ndim) return o.str();
   uint64_t nc=1;
   for(uint32_t i=0;i<t.ndim;i++){
@@ -105,6 +109,7 @@ int main(int argc,char**argv){
     std::string out="done", msg="-", ret="-"; bool same=true;
     if(entry=="cpp"){
       ST table; if(pop) populate(table);
+      table.write_key("DESTKEY1","kept across a rejected fit"); table.write_key("DESTKEY2",42);
       std::string before=dump(table);
       using DC=photospline::detail::array_view<double>;
       using UC=photospline::detail::array_view<uint32_t>;
@@ -128,6 +133,7 @@ int main(int argc,char**argv){
       if(entry!="c_nodata"){ if(splinetable_init(&tab)!=0){ printf("R %s out=initfail ret=- same=1 msg=-\n",id.c_str()); continue; } }
       ST* real=(ST*)tab.data;
       if(pop && real) populate(*real);
+      if(real){ real->write_key("DESTKEY1","kept across a rejected fit"); real->write_key("DESTKEY2",42); }
       std::string before= real ? dump(*real) : "null";
       if(entry=="c_nulltable") tp=NULL;
       if(entry=="c_nulldata") dp=NULL;
